@@ -1,6 +1,7 @@
 package rules
 
 import (
+	"go/types"
 	"go/token"
 	"strings"
 
@@ -240,6 +241,21 @@ func c11(c *Ctx) {
 			}
 		}
 		c.R.Check(okOwner, load.FuncName(fn)+": owner", c.pos(fn.Pos()), "exactly one owner reference: AsController(reference to the XRD)", "the CRD's owner references are not exactly AsController(ref to the XRD)")
+		// ... and nothing executed afterwards replaces the CRD's object metadata or owner references
+		for _, so := range cfgx.Calls(fn, func(ci ssa.CallInstruction) bool { return strings.HasSuffix(cfgx.CalleeName(ci), ".SetOwnerReferences") }) {
+			clob := ""
+			for _, b := range fn.Blocks {
+				for _, in := range b.Instrs {
+					if in == ssa.Instruction(so) || !cfgx.InstrReaches(so, in, nil) {
+						continue
+					}
+					if why := clobbersObjectMeta(in, 3); why != "" {
+						clob = why + " at " + c.pos(in.Pos())
+					}
+				}
+			}
+			c.R.Check(clob == "", site(so)+" owner-kept", c.pos(so.Pos()), "nothing after SetOwnerReferences replaces the object metadata", "after the controller reference is set, "+clob+": the CRD would lose its controller reference to the XRD")
+		}
 		// versions: make(len(xrd.Spec.Versions)) and every index stored
 		lenOK, storeAll := false, false
 		for _, b := range fn.Blocks {
@@ -516,4 +532,39 @@ func c11(c *Ctx) {
 		}
 		c.R.Check(found, it.pkg+": renderer is xcrd."+it.want, "", "the reconciler is wired with xcrd."+it.want, "the reconciler's CRD renderer is not xcrd."+it.want)
 	}
+}
+
+// clobbersObjectMeta reports whether instruction in (or a same-module function
+// it calls statically, to the given depth) stores a whole ObjectMeta or the
+// OwnerReferences field, or calls SetOwnerReferences.
+func clobbersObjectMeta(in ssa.Instruction, depth int) string {
+	switch x := in.(type) {
+	case *ssa.Store:
+		if fa, ok := x.Addr.(*ssa.FieldAddr); ok {
+			st := fa.X.Type().Underlying().(*types.Pointer).Elem().Underlying().(*types.Struct)
+			switch st.Field(fa.Field).Name() {
+			case "ObjectMeta":
+				return "the whole ObjectMeta is overwritten"
+			case "OwnerReferences":
+				return "OwnerReferences is overwritten"
+			}
+		}
+	case ssa.CallInstruction:
+		n := cfgx.CalleeName(x)
+		if strings.HasSuffix(n, ".SetOwnerReferences") {
+			return "SetOwnerReferences is called again"
+		}
+		if depth > 0 {
+			if f := x.Common().StaticCallee(); f != nil && f.Pkg != nil && strings.HasPrefix(f.Pkg.Pkg.Path(), load.Module) {
+				for _, b := range f.Blocks {
+					for _, i2 := range b.Instrs {
+						if why := clobbersObjectMeta(i2, depth-1); why != "" {
+							return f.Name() + ": " + why
+						}
+					}
+				}
+			}
+		}
+	}
+	return ""
 }
